@@ -107,6 +107,19 @@ CLAIMED["C11"] = dict(
          "reduced alphabet per start state (quick); n=3 full, n=4-5 reduced (thorough). Outside: same object appended twice, "
          "GroupedType's container, renaming to a key without '_avp'.")
 
+CLAIMED["C13"] = dict(
+    level="model_checking", technique=E1, design="6/C13",
+    text="The real route decorator, get_request_callback, callback_route, create_error_answer, send_message and "
+         "decorate_answer run on a Bromelia object with in-process workers; the targeted registered (application, command) "
+         "pair, the handler outcome (answer, answer with E preset, None, str, the request, raises), the request's "
+         "Hop-by-Hop/End-to-End and Session-Id bytes are solver variables; CrossHair shows for all of them that exactly the "
+         "registered handler ran once, exactly one answer reached the worker of the request's application, and that the "
+         "fallback is a DIAMETER_UNABLE_TO_COMPLY answer with the request's ids and Session-Id, local origin and the requester "
+         "as destination.",
+    note="Trusted: CrossHair, z3, Barrier/lock/queue stand-ins, log records dropped. Bounds: 2 applications x 2 command codes "
+         "(5 table shapes), same-named and distinctly named handlers. Outside: unregistered pairs, requests lacking "
+         "Session-Id/Origin-Host/Origin-Realm.")
+
 PENDING_REASON = "check not built yet in this session (planned in DESIGN.md section 6); no claim is made"
 NOT_APPLICABLE = {}
 
